@@ -71,6 +71,14 @@ pub enum Adversary {
     Cmd8BadEcho,
     /// a card that answers every CMD55 with "illegal command" (not an SD memory card)
     Cmd55Illegal,
+    /// the n-th command frame (counted over the session) arrives damaged: the card answers it with the
+    /// command-CRC-error bit set and does not execute it. NOT GENERATED: the driver does not look at the R1 of
+    /// most commands, so everything that follows such a frame is outside what the checker can judge (DESIGN 16)
+    CmdCrcError { nth: u32 },
+    /// the two CRC bytes of the n-th data block arrive in exchanged order (a 16-bit burst confined to the CRC field)
+    SwapCrc { block_no: u32 },
+    /// every command frame is answered with the command-CRC-error bit set and is not executed (noisy line to the card)
+    AlwaysCrcError,
 }
 
 #[derive(Clone, Debug, serde::Serialize, serde::Deserialize)]
@@ -415,6 +423,13 @@ impl SimCard {
                 corrupted = all != clean;
             }
         }
+        if let Adversary::SwapCrc { block_no } = &self.cfg.adversary {
+            if *block_no == n {
+                let pl = payload.len();
+                all.swap(pl, pl + 1);
+                corrupted = all[pl] != all[pl + 1];
+            }
+        }
         if let Adversary::StuckHigh { block_no, from } = &self.cfg.adversary {
             if *block_no == n {
                 let clean = all.clone();
@@ -467,6 +482,21 @@ impl SimCard {
         }
         let was_app = self.app_cmd;
         self.app_cmd = false;
+        if self.cfg.adversary == Adversary::AlwaysCrcError {
+            self.adversary_fired += 1;
+            let r = self.r1() | 0x08;
+            self.queue_response(&[r]);
+            return;
+        }
+        // the frame was damaged on its way (as far as the card can tell): CRC error, not executed
+        if let Adversary::CmdCrcError { nth } = &self.cfg.adversary {
+            if self.crc_on && self.commands.len() as u32 == *nth + 1 && cmd != 0 {
+                self.adversary_fired += 1;
+                let r = self.r1() | 0x08;
+                self.queue_response(&[r]);
+                return;
+            }
+        }
         // a card that checks CRCs refuses a frame with a bad one
         if (self.crc_on || cmd == 0 || cmd == 8) && f[5] != want_crc {
             let r = self.r1() | 0x08;
